@@ -28,6 +28,14 @@ def causes(E, V, depth=0):
     return out
 
 
+def merge_ref(E, V):
+    """SchemaMerge as the property states it (Python rendering, used only to compute what the second update of a sequence
+    is applied to when attributing a failure to a recorded deviation)."""
+    if isinstance(E, dict) and E and isinstance(V, dict) and V:
+        return {k: (merge_ref(E[k], V[k]) if k in V else E[k]) for k in E}
+    return V
+
+
 def merge_dev(E, V):
     """SchemaMerge with the recorded deviation C19-empty-text-object built in: '{}' against a non-empty object keeps the
     object.  Used only to decide whether a failing case shows exactly that recorded deviation and nothing else."""
@@ -63,16 +71,22 @@ def run(tier):
     recs += M.gen_pairs(ctx, 2, 2, 4, "Gen_Schema_wide3", smode="wide3", layv=0 if q else 2)
     # an object nested in a declared member with members updated in place or rebuilt, followed / preceded by a declared member
     recs += M.gen_pairs(ctx, 2, 2, 4, "Gen_Schema_nest2", smode="nest2")
+    # names of every length with an escape at every block offset, matched against another spelling of the same name
+    recs += M.gen_pairs(ctx, 2, 2, 4, "Gen_Schema_esckeys", smode="esckeys")
     # beyond the exhaustive bound: random growth + random edits (TLC simulation)
     recs += M.gen_rand(ctx, 6 if q else 60, 8, 3) + M.gen_rand(ctx, 3 if q else 30, 12, 5, layv=0 if q else 2)
     recs += M.gen_pairs(ctx, 3, 2, 4, "Gen_Schema_32_ws", laye=2, layv=3)            # whitespace layouts
-    rows = [[str(i), hexs(r["e"]), hexs(r["v"]), T.canon(r["schema"]), T.canon(r["schema2"])] for i, r in enumerate(recs)]
+    rows = [[str(i), hexs(r["e"]), hexs(r["v"]), T.canon(r["schema"]), T.canon(r["schema2"])] +
+            ([hexs(r["v2"]), T.canon(r["schema12"])] if "v2" in r else []) for i, r in enumerate(recs)]
     # leak detection off here: the leak of the previous schema buffer on repeated ParseSchema is a C13 matter
     # pairs on which the recorded memory-corrupting deviation can act are replayed in a pass of their own, so that their
     # crashes cannot use up the restart budget of the main pass (each crash ends a replayer process)
     def may_crash(r):
         try:
-            return "text-array-holding-object-vs-object" in causes(json.loads(bytes.fromhex(r[1])), json.loads(bytes.fromhex(r[2])))
+            E, V = json.loads(bytes.fromhex(r[1])), json.loads(bytes.fromhex(r[2]))
+            if "text-array-holding-object-vs-object" in causes(E, V):
+                return True
+            return len(r) >= 7 and "text-array-holding-object-vs-object" in causes(merge_ref(E, V), json.loads(bytes.fromhex(r[5])))
         except Exception:
             return False
     env = {"ASAN_OPTIONS": "detect_leaks=0:abort_on_error=0:exitcode=97:allocator_may_return_null=1"}
@@ -88,12 +102,16 @@ def run(tier):
         bk = "crash" if kind.startswith("crash") else kind.split(":")[-1]
         try:
             E, V = json.loads(e), json.loads(v)
-            cs = sorted(causes(E, V))
+            cs = set(causes(E, V))
+            if bk == "merge12":
+                cs |= causes(merge_ref(E, V), json.loads(bytes.fromhex(row[5])))
+            cs = sorted(cs)
             # the '{}' deviation has a definite outcome: a failing case counts as that recorded finding only if the
             # observed document is exactly what the deviation predicts (anything else on such a pair is something new)
-            if cs == ["empty-text-object-vs-nonempty-object"] and bk in ("merge", "merge2") and " got=" in detail:
+            if cs == ["empty-text-object-vs-nonempty-object"] and bk in ("merge", "merge2", "merge12") and " got=" in detail:
                 got = detail.split(" got=", 1)[1].strip()
-                pred = merge_dev(E, V) if bk == "merge" else merge_dev(merge_dev(E, V), V)
+                pred = merge_dev(E, V) if bk == "merge" else merge_dev(merge_dev(E, V), V) if bk == "merge2" else \
+                    merge_dev(merge_dev(E, V), json.loads(bytes.fromhex(row[5])))
                 if got != py_canon(pred):
                     cs = ["empty-text-object-vs-nonempty-object+unpredicted-result"]
         except Exception:
